@@ -10,6 +10,22 @@ CHECKS = {
  "C20": ("exploration", "Runtime monitor: for every feature set S = full minus one proposal and the input's greedy-minimal set, V_S(input) ok implies V_S(output) ok, on fixtures, generated modules, a feature census and the operator census.", "feature sets are wasmparser 0.214's WasmFeatures flags", "runtime monitoring: differential validation of input and output under reduced feature sets", "6 C20"),
 }
 
+
+CHECKS.update({
+ "C01": ("exploration", "Differential execution: input and re-emitted binary run side by side in an own reference interpreter (no walrus code) under the same deterministic host and seeded call sequences; results, traps, host-call trace and exported state compared after every call. Decides only the executions produced; evidence reports instructions executed, trap kinds, host calls.", "interpreter fidelity (unit tests + V8 differential self-check in wv-interp/tests); funcrefs compared by class; fuel counts calls and back-edges only", "runtime monitoring: differential execution in a reference interpreter", "6 C01"),
+ "C03": ("exploration", "Lock-step comparison of normalised operator streams of every paired function (opcode, every immediate bit-exact, block signatures, entity and local operands through checked bijections) on generated bodies that draw from all operators the reference validator accepts; evidence lists the distinct operator kinds matched.", "same normaliser applied to both sides; decoder = wasmparser 0.214", "runtime monitoring: operator-stream isomorphism over recorded input/output pairs", "6 C03"),
+ "C04": ("exploration", "Lock-step module isomorphism over all non-code sections from externally fixed roots; reports dropped/added/duplicated/retargeted entities and any attribute difference.", "types compared as sets of signatures; decoder = wasmparser 0.214", "runtime monitoring: module isomorphism over recorded input/output pairs", "6 C04"),
+ "C05": ("exploration", "Gate monitor: arbitrary bytes (valid corpus, 16 structure-aware/byte mutators, truncations, nesting to depth 10^5/10^6, one exemplar per supported and unsupported proposal) parsed under both configurations on a 2 MiB stack with a CPU budget; verdict compared with the reference validator; panics, aborts, stack overflows and budget overruns are attributed by the begin/end event-log protocol.", "'never hangs' restated as <= 60 s CPU per input; reference = wasmparser 0.214 under the documented feature sets", "runtime monitoring: crash/panic/CPU observer + differential verdict against the reference validator", "6 C05"),
+ "C06": ("exploration", "GC monitor: validator on the GC output, export list equality, reachable-implies-kept through isomorphism against the part of the input an own reachability analysis reaches, and execution equivalence through the exports in the reference interpreter; custom-section roots exercised through a harness section.", "root set as stated in the property; only live code creates edges; interpreter fidelity as for C01", "runtime monitoring: own reachability + isomorphism + differential execution", "6 C06"),
+ "C07": ("exploration", "Precision: own reachability run on the GC output itself must reach every entity and type it contains; idempotence: bytes after two GC runs equal bytes after one.", "one residual memory tolerated as the property allows", "runtime monitoring: reachability analysis of recorded outputs + byte equality", "6 C07"),
+ "C10": ("exploration", "DWARF monitor: synthesised well-formed DWARF (v4/v5, per-function and spanning sequences, file 0) over the LEB-boundary census and random modules, under emit / GC / inserted instructions; output read back with gimli and every row/subprogram checked against the instruction/function it designates through the isomorphism oracle.", "gimli reader; instruction identity from the isomorphism oracle", "runtime monitoring: read-back of emitted DWARF against an instruction-level bijection", "6 C10"),
+ "C11": ("exploration", "A harness custom section records the CodeTransform handed to it; pairs, function ranges and code_section_start are checked against independently decoded input and output; inserted marker instructions must appear in no pair.", "absolute file offsets; the end of an else-less if may map to the synthesised else", "runtime monitoring: hooked callback observation checked against decoded binaries", "6 C11"),
+ "C12": ("exploration", "List equality (name, payload, order, multiplicity) of the custom sections walrus does not interpret, for emit, second emit, GC+emit, GC+second emit, on inputs with any number/placement/naming of such sections with unique payloads.", "interpreted sections: name, producers, .debug*", "runtime monitoring: list comparison over recorded outputs", "6 C12"),
+ "C13": ("exploration", "Name monitor: unique names on entities; every output name must belong to the preimage under the isomorphism bijection and every named, still-emitted entity must keep its name; partial name sections and reordering exercised.", "bijection never looks at names; unused locals/merged types/label subsections tolerated as the property states", "runtime monitoring: name-section comparison through an independent bijection", "6 C13"),
+ "C14": ("exploration", "All 2^7 switch combinations on each input (exhaustive in that dimension) plus repeated round trips: single-switch differential for name/producers, producers model, .debug_* iff generate_dwarf, on_parse counter.", "generate_dwarf implies preserve_code_transform (documented)", "runtime monitoring: differential outputs across the full configuration space + callback counter", "6 C14"),
+ "C19": ("exploration", "Hooked observation of both index maps through the public extension points (on_parse, CustomSection::data) compared with independently decoded binaries using index-free entity descriptions.", "descriptions computed twice: from walrus's public API by the driver, from the bytes by the judge", "runtime monitoring: callback observation checked against decoded binaries", "6 C19"),
+})
+
 NOT_YET = {}
 
 def main():
